@@ -678,7 +678,47 @@ def r8_time_grid(ctx, rule='C01.R8'):
     ctx.ok('Duration operations in the calendar queue inspected: %d' % n, None)
 
 
+def r10_id_sequence(ctx):
+    """handles stay unique for the life of the queue: the id counter only ever counts up (a reset would let a stale handle of a fetched
+    event name a newly added one - cancelling it would then remove a pending event)"""
+    ctx.set_rule('C01.R10')
+    P = ctx.P
+    fa = ctx.anchor(Q + '::add')
+    if not fa:
+        return
+    # role: the field whose value becomes the `id` of the handle add returns
+    idf = set()
+    for b, t in ret_trees(fa):
+        for x in walk(t):
+            if x[0] == 'agg' and str(x[1]).endswith('EventHandle') and len(x) > 3 and 'id' in x[3]:
+                for y in walk(x[2][list(x[3]).index('id')]):
+                    if y[0] == 'field' and len(y) > 3 and str(y[3]).split('<')[0].endswith('CQueue'):
+                        idf.add(y[2])
+    if not ctx.floor('id counter field of CQueue (source of EventHandle.id)', len(idf), 1):
+        return
+    n = 0
+    for g in P.fn_list:
+        if not g.key.startswith(Q + '::') or g.kind == 'promoted' or g.key.startswith((Q + '::new', Q + '::default')):
+            continue
+        for b in sorted(g.reachable()):
+            for i, st in enumerate(g.stmts(b)):
+                if st['k'] != 'assign' or not st['p']['pr']:
+                    continue
+                c = classify_write(g, b, i, st)
+                if c and c[1] in idf:
+                    n += 1
+                    v = peel(c[3]) if len(c) > 3 and c[3] is not None else ('unknown',)
+                    # `x += 1`, or `x = x.wrapping_add(1)` / `x + 1` of the counter itself
+                    up = c[0] == 'inc' or ((v[0] == 'call' and v[1].split('::')[-1] in ('wrapping_add', 'checked_add', 'saturating_add', 'add') and len(v[2]) == 2 and
+                                            peel(v[2][0])[0] == 'field' and peel(v[2][0])[2] == c[1] and v[2][1] == ('int', 1)) or
+                                           (v[0] == 'bin' and v[1].startswith('Add') and peel(v[2])[0] == 'field' and peel(v[2])[2] == c[1] and v[3] == ('int', 1)) or
+                                           (v[0] == 'field' and v[2] == '0' and peel(v[1])[0] == 'bin' and peel(v[1])[1].startswith('Add') and peel(peel(v[1])[2])[0] == 'field' and peel(peel(v[1])[2])[2] == c[1]))
+                    ctx.check(up, 'id-counter-only-counts-up', 'the event id counter is only ever incremented', g.where(b), {'kind': c[0], 'field': c[1], 'value': show(v)[:80]})
+    ctx.floor('writes of the id counter', n, 1)
+
+
 def run(ctx):
+    r10_id_sequence(ctx)
     # (R9) the per-bucket list stays a well-formed doubly linked list: a node handed to the list is linked on both sides, a node taken
     # out (pop, cancel) is unlinked on both sides before it is released (shared with C15.R4) - a half-unlinked neighbour loses the next
     # event inserted in front of it
